@@ -15,7 +15,7 @@ for name in $LIST; do
   [ -f $d/patch.diff ] || continue
   git -C "$REPO" apply $PWD/$d/patch.diff || { echo "PATCH-DOES-NOT-APPLY $name"; fail=1; continue; }
   bad=""
-  for id in C04 C05 C09 C11 C13 C15 C16; do
+  for id in ${BENIGN_IDS:-C04 C05 C09 C11 C13 C15 C16}; do
     # BENIGN_TIER=thorough BENIGN_RUNS=<n> runs the thorough generators and the thorough tier's required-probe gate on a reduced budget
     if [ -n "${BENIGN_TIER:-}" ]; then
       out=$(VERIF_NO_EVIDENCE=1 VERIF_ENFORCE_PROBES=1 VERIF_RUNS=${BENIGN_RUNS:-300000} ./check $id $BENIGN_TIER 2>&1); rc=$?
